@@ -183,6 +183,45 @@ pub async fn run_case(backend: &str, seed: u64, rep: &mut Report, corr: &mut Cor
             }
         }
     }
+    // C02 after merges: on every device the served default folder equals the replay of its log
+    for k in 0..n_dev {
+        let mut a = w.devices[k].lock().await;
+        if let Some(f) = a.default_folder().await {
+            let id = *f.id();
+            let sv = crate::folder::served(&mut a, &id).await;
+            let rv = crate::folder::replayed(&a, &id).await;
+            match (sv, rv) {
+                (Ok(sv), Ok(rv)) => {
+                    let mut x = sv.secrets.clone(); let mut y = rv.secrets.clone(); x.sort(); y.sort();
+                    if sv.name != rv.name || sv.flags != rv.flags || sv.desc != rv.desc || x != y {
+                        let what = if x != y { "secrets" } else { "attributes" };
+                        // gap predicate of the recorded finding: the merged patch was replayed onto a vault that
+                        // was not rewound (only possible after an auto-merge, i.e. when this device had offline edits)
+                        let had_offline = committed_by.values().any(|v| v.iter().any(|(d, _)| *d == k));
+                        let dupsfx = if has_dups(&format!("folder:{}", id)) { "-with-byte-identical-events" } else { "-all-events-distinct" };
+                        // gap predicate of the recorded finding: the log holds an event that the access point
+                        // ignores but the reducer applies (update of an id deleted earlier, create of a present id)
+                        let inapplicable = {
+                            use futures::StreamExt; use sos_core::events::{EventLog, WriteEvent}; use sos_sync::StorageEventLogs;
+                            let log = a.folder_log(&id).await.map_err(|e| anyhow::anyhow!(e.to_string()))?; let l = log.read().await;
+                            let st = l.event_stream(false).await; futures::pin_mut!(st);
+                            let mut present = std::collections::BTreeSet::new(); let mut bad = false;
+                            while let Some(r) = st.next().await { if let Ok((_, ev)) = r { match ev {
+                                WriteEvent::CreateSecret(i, _) => { if !present.insert(i) { bad = true; } }
+                                WriteEvent::UpdateSecret(i, _) => { if !present.contains(&i) { bad = true; present.insert(i); } }
+                                WriteEvent::DeleteSecret(i) => { present.remove(&i); }
+                                _ => {} } } }
+                            bad };
+                        let gapsfx = if what == "secrets" && inapplicable { "-log-has-update-of-deleted-or-create-of-present" } else { "" };
+                        rep.spec_fail(&format!("c02-served-differs-from-replay-after-{}-{what}{gapsfx}{dupsfx}", if had_offline { "auto-merge" } else { "fast-forward-merge" }),
+                            json!({"case_seed": seed, "backend": backend, "script": script, "device": k, "served": sv.secrets.len(), "replay": rv.secrets.len()}),
+                            "after syncing, the folder served by a device differs from the replay of its own event log");
+                    }
+                }
+                (Err(e), _) | (_, Err(e)) => rep.spec_fail("c02-view-error-after-merge", json!({"case_seed": seed, "backend": backend, "script": script, "device": k}), &e),
+            }
+        }
+    }
     rep.case(&script.join(";"), committed.values().map(|v| v.len()).sum::<usize>() > 0);
     if seed % 50 == 0 { rep.sample(json!({"script": script})); }
     Ok(())
